@@ -186,7 +186,14 @@ fn replay_file(path: &Path, quiet: bool) -> i32 {
     };
     let want = doc["signature"].as_str().unwrap_or("").to_string();
     let mut acc = Acc::default();
-    match (def.execute)(&sc, &mut acc) {
+    let mut last = (def.execute)(&sc, &mut acc);
+    for _ in 1..def.replay_attempts() {
+        if matches!(&last, Ok(vs) if vs.iter().any(|v| v.signature() == want)) {
+            break;
+        }
+        last = (def.execute)(&sc, &mut acc);
+    }
+    match last {
         Err(e) => {
             eprintln!("harness error during replay: {e}");
             2
@@ -271,15 +278,13 @@ fn run_check(def: &CheckDef, args: &Args) -> i32 {
             }
         };
         // the violation must reproduce from its explicit scenario before anything is claimed
-        let mut a2 = Acc::default();
-        let again = (def.execute)(&sc, &mut a2);
-        let reproduces = matches!(&again, Ok(vs) if vs.iter().any(|v| v.signature() == *sig));
+        let reproduces = minimise::still_fails(def.execute, &sc, sig, def.replay_attempts());
         if !reproduces {
             eprintln!("harness error: {sig} (run {i}) did not reproduce from its explicit scenario: not reported as a violation");
             exit = exit.max(2);
             continue;
         }
-        let (min_sc, tried) = minimise::minimise(def.execute, &sc, sig, Duration::from_secs(20));
+        let (min_sc, tried) = minimise::minimise(def.execute, &sc, sig, Duration::from_secs(20), def.replay_attempts());
         let mut a3 = Acc::default();
         sim::LOG_CAPTURE.with(|c| *c.borrow_mut() = Some(Vec::new()));
         let detail = match (def.execute)(&min_sc, &mut a3) {
